@@ -6,10 +6,6 @@ def claim(pid, engine, technique, level, note, ref):
     CLAIMED[pid] = dict(engine=engine, technique=technique, level=level, note=note, design_ref=ref)
     NOT_APPLICABLE.pop(pid, None)
 NOT_APPLICABLE = {f"C{i:02d}": WIP for i in range(1, 19)}
-NOT_APPLICABLE["C03"] = ("relation between an arbitrary dynamic call tree and an arbitrary selector tree, computed at run time by the "
-                         "evolution of handler collections and accumulator forks; no sound static abstraction in reach bounds embeddings")
-NOT_APPLICABLE["C07"] = ("quantifies over call trees and runtime data flow through Total accumulator forks; its only structural clause "
-                         "(exit hook on every way out) is decided under C06 rule R06.1")
 SOURCE_COMMITS = ["746fd1a fix: undo the instrumentation counts when the new variant cannot be installed", "798314f fix: untool the functions of a selector that autotool ends up refusing", "f8603ba fix: roll back the tooling of earlier selectors when a later one is refused", "e29e1a9 fix: mark the cached instrumented variants as helper functions", "ceee686 fix: match the receiver of a bound-method selector by identity", "f362961 fix: serialize instrumentation changes between threads", "3d31492 fix: do not rewrite the bodies of nested classes, lambdas and async functions", "744a5c2 fix: rewrite the right-hand side of assignments too", "2a0cb7a fix: collect the names bound in except bodies and by match patterns", "466fe4b fix: report the name bound by a dotted import", "c1855a8 fix: do not bind the ABSENT marker to variables that are not instrumented", "40ebacf fix: report malformed selectors as syntax or selector errors", "26f5533 fix: refuse bound methods without a named receiver with a selector error"]
 
 claim("C12", "P", "AST normal-form comparison tables + wrapper-guard agreement (syntactic dataflow)",
@@ -120,3 +116,16 @@ claim("C18", "P", "exception-escape analysis over the resolved call graph (asser
       "the construction / activation path. Termination is argued by loop variants only.",
       "Trusted: callee resolution (statistics in the evidence); external calls outside EXTERNAL_RAISES do not raise on selector input; exceptions from user functions inside selector values are out of scope.",
       "DESIGN.md section 6, C18")
+
+claim("C03", "P", "shape rules on the matching step (HandlerCollection.proceed / fits_selector / proceed.__enter__/__exit__): guard conditions of the keep / push / fork / register statements, memo protocol, token agreement",
+      "PARTIAL BY DESIGN: the property relates arbitrary dynamic call trees to selector trees and that relation is NOT decided (no static abstraction in reach counts embeddings). Decided are four structural necessary "
+      "conditions of the per-call matching step, each of which changes which events fire when broken: pending selectors kept unless immediate and independently of the fit; children pushed only on fit, paired with this "
+      "embedding's accumulator which is forked on focus/template; the static fit rule and its memo; entry installs / exit restores the collection with one token.",
+      "Trusted: interning of selectors (C15) for the memo key. The verdict says nothing about the number of embeddings for a concrete call stack or about sibling-value attribution.",
+      "DESIGN.md section 7 and 11.6")
+claim("C07", "T+P", "CFG must-call rules on proceed.__exit__ / Interactor.exit, guard-condition rules on register / fork / Total.close, template fact that the body sits inside with-proceed",
+      "PARTIAL BY DESIGN: attribution of values to outermost calls over arbitrary call trees is runtime data flow and is NOT decided. Decided are the structural necessary conditions: the close hook runs on every way out "
+      "of an activation; an accumulator is registered for closing exactly at the outermost match (template flag read before the fork); Total accumulates and never overwrites; a record is emitted from the root only, per leaf, "
+      "iff the captured names equal the required names; a focused element forks the accumulator.",
+      "Trusted: engine T base (see C01). The verdict says nothing about which values end up in which record for a concrete program.",
+      "DESIGN.md section 7 and 11.6")
